@@ -166,7 +166,7 @@ pub fn run_c10(ctx: &Ctx, rep: &mut Report) {
         let bufsize = *rng.pick(&[None, Some(1024usize), Some(4096)]);
         let mut mon = NoEffectMonitor { snap: None, refusals: 0 };
         let mix = *rng.pick(&[0, 30, 45]);
-        let info = drive(ctx, case, rng, rep, DriveOpts { version, bufsize, max_steps, cfg, handle_mix_pct: mix, max_handles: 2 }, &mut mon);
+        let info = drive(ctx, case, rng, rep, DriveOpts { version, bufsize, max_steps, cfg, handle_mix_pct: mix, max_handles: 2, start: None }, &mut mon);
         if mon.refusals >= 3 && !info.abandoned {
             rep.nontrivial(info.hash);
         }
@@ -493,7 +493,7 @@ pub fn run_c17(ctx: &Ctx, rep: &mut Report) {
         cfg.soft_max_objects = *rng.pick(&[10, 40, 80]);
         cfg.max_size = 700;
         let mut mon = MetaMonitor { checked: 0, expect_ok: false };
-        let info = drive(ctx, case, rng, rep, DriveOpts { version, bufsize: None, max_steps, cfg, handle_mix_pct: 0, max_handles: 0 }, &mut mon);
+        let info = drive(ctx, case, rng, rep, DriveOpts { version, bufsize: None, max_steps, cfg, handle_mix_pct: 0, max_handles: 0, start: None }, &mut mon);
         let n_meta = info.steps.iter().filter(|s| matches!(s, Step::Api(Op::SetClsid(..) | Op::SetState(..) | Op::SetCreated(..) | Op::SetModified(..) | Op::Touch(_)))).count();
         for s in &info.steps {
             if let Step::Api(Op::SetCreated(_, ns) | Op::SetModified(_, ns)) = s {
